@@ -95,6 +95,11 @@ func ruleSetYAML(src int, kind string) string {
 	switch kind {
 	case "empty":
 		return ""
+	case "empty-line":
+		// (what "echo > rules.yaml" leaves behind)
+		return "\n"
+	case "empty-comment":
+		return "# all rules of this source are switched off for now\n#- id: r\n"
 	case "syntax":
 		return "version: \"1alpha4\"\nrules:\n- id: r\n  match: {routes: [ {path: /x"
 	}
@@ -120,7 +125,10 @@ func ruleSetRules(src int, kind string) []rulecfg.Rule {
 		Execute: []config.MechanismConfig{{"authenticator": authn}}}}
 }
 
-var contentKinds = []string{"v1", "v2", "v3", "v1", "v2", "empty", "syntax", "semantic", "gone"}
+var contentKinds = []string{"v1", "v2", "v3", "v1", "v2", "empty", "empty-line", "empty-comment", "syntax", "semantic", "gone"}
+
+// isEmpty: content without any rule set in it (no bytes, white space, comments)
+func isEmpty(kind string) bool { return strings.HasPrefix(kind, "empty") }
 
 // ---- recording processor and world --------------------------------------------------------------------------------------
 
@@ -222,7 +230,7 @@ func (m *model) observe(src int, kind string) (wantOps []string) {
 
 			return []string{"updated"}
 		}
-	case "empty", "gone", "http404", "http500":
+	case "empty", "empty-line", "empty-comment", "gone", "http404", "http500":
 		if cur == "" {
 			return nil
 		}
@@ -414,7 +422,7 @@ func TestFileSystemProviderConverges(t *testing.T) {
 			}
 
 			history = append(history, fmt.Sprintf("op: %s <- %s", filepath.Base(file(s)), kind))
-			nt = nt || kind == "empty" || kind == "syntax" || kind == "semantic" || kind == "gone"
+			nt = nt || isEmpty(kind) || kind == "syntax" || kind == "semantic" || kind == "gone"
 
 			if rapid.IntRange(0, 3).Draw(t, "duplicate") == 0 {
 				evts = append(evts, evts[len(evts)-1])
@@ -522,7 +530,7 @@ func TestHTTPEndpointProviderConverges(t *testing.T) {
 
 		for i := 0; i < steps; i++ {
 			s := rapid.IntRange(0, nsrc-1).Draw(t, "src")
-			kind := rapid.SampledFrom([]string{"v1", "v2", "v3", "v1", "v2", "empty", "syntax", "semantic", "http404", "http500", "neterr", "neterr", "timeout"}).Draw(t, "outcome")
+			kind := rapid.SampledFrom([]string{"v1", "v2", "v3", "v1", "v2", "empty", "empty-line", "empty-comment", "syntax", "semantic", "http404", "http500", "neterr", "neterr", "timeout"}).Draw(t, "outcome")
 
 			if exclNet && (kind == "neterr" || kind == "timeout") {
 				vkit.S.Exclude(kfHTTPNetErr)
@@ -676,13 +684,13 @@ func TestCloudBlobProviderConverges(t *testing.T) {
 
 			// removed objects are handled first, then the objects in listing (key) order
 			for s := 0; s < nsrc; s++ {
-				if c := content[s]; c == "" || c == "empty" {
+				if c := content[s]; c == "" || isEmpty(c) {
 					want = append(want, m.observe(s, "gone")...)
 				}
 			}
 
 			for s := 0; s < nsrc; s++ {
-				if c := content[s]; c != "" && c != "empty" {
+				if c := content[s]; c != "" && !isEmpty(c) {
 					want = append(want, m.observe(s, c)...)
 				}
 			}
@@ -715,7 +723,7 @@ func TestCloudBlobProviderConverges(t *testing.T) {
 			}
 
 			history = append(history, fmt.Sprintf("op: %s <- %s", key, kind))
-			nt = nt || kind == "empty" || kind == "syntax" || kind == "semantic" || kind == "gone"
+			nt = nt || isEmpty(kind) || kind == "syntax" || kind == "semantic" || kind == "gone"
 
 			for k, n := 0, rapid.IntRange(0, 2).Draw(t, "polls"); k < n; k++ {
 				poll()
